@@ -86,8 +86,9 @@ def pointAlongMat (M : Matrix (Fin (n + 2)) (Fin (n + 2)) K) (th : K) : Fin (n +
 /-- `Isometry.standard_rotation(θ, dimension)` applied to a (row) vector, `(c,s)=(cos θ,sin θ)`:
 the block `[[c,-s],[s,c]]` acts on coordinates 1, 2 (`column_vectors=True`), identity elsewhere -/
 def rotApply (c s : K) (v : Fin (n + 3) → K) : Fin (n + 3) → K :=
-  Fin.cons (v 0) (Fin.cons (c * v 1 - s * v 2) (Fin.cons (s * v 1 + c * v 2)
-    (fun i => v i.succ.succ.succ)))
+  let v₁ := Fin.tail v
+  let v₂ := Fin.tail v₁
+  Fin.cons (v 0) (Fin.cons (c * v₁ 0 - s * v₂ 0) (Fin.cons (s * v₁ 0 + c * v₂ 0) (Fin.tail v₂)))
 
 /-- start vertex of `Polygon.regular_polygon`: `get_base_tangent().point_along(r)`, i.e. the
 Klein point `(th, 0, …, 0)`, `th = tanh r` -/
